@@ -322,6 +322,85 @@ def kx_coord_index(params, timeout):
     return out
 
 
+def ob_range_count(start: float, step: float) -> bool:
+    """
+    pre: 0 <= start <= 1000000 and 0.000001 <= step <= 1000
+    post: _
+    """
+    # replay target of the IEEE search: when (stop - start)/step is EXACTLY the whole number N (decided in
+    # rationals over the doubles), the range has exactly N coordinates
+    N = h.P("N")
+    stop = start + N * step
+    if not whole(start, stop, step, N):
+        return True
+    v = D.create_range_dim("x", start, stop, step=step)
+    if len(_labels(v)) != N:
+        return h.fail("(stop - start)/step is the whole number N but there are not N coordinates")
+    return h.done(any=True)
+
+
+def kx_range_count(params, timeout):
+    """IEEE-754 search: the real create_range_dim is run over z3 Float64 terms; np.arange is replaced by its
+    contract in doubles (length ceil((stop-start)/step) computed in floating point — N or N+1 elements are
+    explored —, element i = start + i*((start+step)-start)); z3 is asked for doubles start, step with
+    stop = start + N*step EXACT (no rounding in the product and the sum) for which the function does not
+    return N coordinates."""
+    import types
+
+    import z3
+
+    from models import npl, xrl
+    from vf import kx
+
+    N = params["N"]
+    start, step = kx.var("start", 0.5), kx.var("step", 0.25)
+    nstep = step * float(N)
+    stop = start + nstep
+    base = [kx.finite_between(start, 0.0, 1000000.0), kx.finite_between(step, 0.000001, 1000.0),
+            kx.exact_mul(step, float(N)), kx.exact_add(start, nstep)]
+
+    def arange(start=None, stop=None, step=1, dtype=None):
+        a, b, s_ = start, stop, step
+        length = kx.arange_len(a, b, s_)
+        delta = (a + s_) - a
+        for k in (N, N + 1, N - 1):
+            if k >= 0 and kx.ZB(z3.fpEQ(length, z3.FPVal(float(k), kx.F64))):
+                return npl.ndarray([a + j * delta for j in range(k)], (k,), None)
+        raise kx.SymbolicBranch("range length outside N-1..N+1")
+
+    fake_np = types.SimpleNamespace(arange=arange, float64=npl.float64, ndarray=npl.ndarray)
+
+    def run():
+        v = D.create_range_dim("x", start, stop, step=step)
+        return len(v.data.tolist())
+
+    saved = (D.np, D.xr)
+    D.np, D.xr = fake_np, xrl.xarray
+    try:
+        paths = kx.explore(run, max_paths=24, base=base, prune_timeout_ms=3000)
+    finally:
+        D.np, D.xr = saved
+    queries, spent, unknown = 0, 0.0, False
+    for pc, res in paths:
+        if isinstance(res, Exception) or res == N:
+            continue
+        r = kx.solve(base + pc, max(10.0, (timeout - spent) / 2), {"start": start, "step": step})
+        queries += 1
+        spent += r["solve_s"]
+        if r["status"] == "sat":
+            m = r["model"]
+            return {"status": "refuted", "replay_fn": "ob_range_count", "args": [[m["start"], m["step"]], {}],
+                    "queries": queries, "paths": len(paths), "solve_s": round(spent, 1),
+                    "message": "z3 model: %d exact steps but %d coordinates for start=%r step=%r" % (N, res, m["start"], m["step"]),
+                    "clause": "(stop - start)/step is the whole number N but there are not N coordinates"}
+        if r["status"] != "unsat":
+            unknown = True
+    out = {"queries": queries, "paths": len(paths), "solve_s": round(spent, 1)}
+    out.update(status="searched" if unknown else "confirmed",
+               message="no IEEE counterexample found within the budget (z3: unknown)" if unknown else "every path with another count is unsat")
+    return out
+
+
 def plan():
     q = ("quick", "thorough")
     obs = []
@@ -337,6 +416,8 @@ def plan():
     for n in (1, 2, 3, 4):
         tw = {1: ("edge", "outside"), 2: ("inside", "edge", "outside"), 3: ("inside", "outside"), 4: ("outside",)}[n]
         obs.append(Ob("coord-index-n%d" % n, ob_coord_index, "ieee", 900, dict(n=n), q, twins=tw, twin_timeout=600))
+    for N in (1, 3, 8, 100):
+        obs.append(Ob("ieee-range-count-N%d" % N, kx_range_count, "kx", 600, dict(N=N), ("thorough",), kind="py"))
     for (N, i) in ((3, 1), (3, 2), (5, 4), (8, 5), (8, 7)):
         obs.append(Ob("ieee-lookup-N%d-i%d" % (N, i), kx_coord_index, "kx", 1500, dict(N=N, i=i),
                       ("thorough",), kind="py"))
